@@ -512,7 +512,7 @@ def ToWire(rec):
   return out
 
 
-def Lemma(n, timeout=1500):
+def Lemma(n, timeout=3400):
   """StrLitLemma over all strings up to length n.  Returns (TlcResult, carry)."""
   r = tlc.Run('StrLitLemma', cfg='StrLitLemma%d.cfg' % n, timeout=timeout,
               tag='c10lemma', coverage=False)
@@ -545,7 +545,8 @@ def Validate(records, tag, nshards=None, timeout=3000):
     paths.append(path)
 
   def One(path):
-    return tlc.Run('C10Trace', workers=1, env={'TRACE_FILE': path},
+    return tlc.Run('C10Trace', workers=1, env={'TRACE_FILE': path,
+                        'JAVA_TOOL_OPTIONS': '-XX:ParallelGCThreads=2'},
                    timeout=timeout, tag=tag, heap='3g')
   with cf.ThreadPoolExecutor(max_workers=common.NCPU) as ex:
     results = list(ex.map(One, paths))
